@@ -133,6 +133,7 @@ func checkC12(r *Run) propMeta {
 	checkKindsEquality(r, gp)
 	checkDedupeAgainstResult(r, gp)
 	checkEntityMergeDelegates(r, gp)
+	checkAccessorsPure(r, "C12-R12-accessors-pure", gp, "Properties")
 	checkEntityNilProperties(r, gp)
 	r.Floor("C12-R1-effect-summary", 5)
 	r.Floor("C12-R7-kinds-no-in-place-edit", 5)
@@ -183,8 +184,25 @@ func extractSummary(r *Run, p *packages.Package, roles trackRoles, method string
 		}
 	}
 	// recvField: expr is s.<F> with F a tracking container of the receiver
+	// locals that hold one of the receiver's containers (`values := s.valueStore(n)`)
+	containerAlias := map[types.Object]string{}
 	recvField := func(e ast.Expr) string {
-		sel, ok := ast.Unparen(e).(*ast.SelectorExpr)
+		e = ast.Unparen(e)
+		if id, isId := e.(*ast.Ident); isId {
+			return containerAlias[info.Uses[id]]
+		}
+		if call, isCall := e.(*ast.CallExpr); isCall {
+			// s.valueStore(n): an accessor of the owner that allocates the container when it is nil and hands it back
+			if sel, isSel := ast.Unparen(call.Fun).(*ast.SelectorExpr); isSel {
+				if id, isId := ast.Unparen(sel.X).(*ast.Ident); isId && info.Uses[id] == recv {
+					if f := containerAccessorField(p, calleeOf(info, call)); isTrack(f) {
+						return f
+					}
+				}
+			}
+			return ""
+		}
+		sel, ok := e.(*ast.SelectorExpr)
 		if !ok {
 			return ""
 		}
@@ -357,6 +375,16 @@ func extractSummary(r *Run, p *packages.Package, roles trackRoles, method string
 		for _, st := range list {
 			switch x := st.(type) {
 			case *ast.AssignStmt:
+				if x.Tok == token.DEFINE && len(x.Lhs) == 1 && len(x.Rhs) == 1 {
+					if id, isId := x.Lhs[0].(*ast.Ident); isId {
+						if f := recvField(x.Rhs[0]); f != "" {
+							if obj := info.Defs[id]; obj != nil && singleAssignment(info, fd.Body, obj) {
+								containerAlias[obj] = f
+								continue
+							}
+						}
+					}
+				}
 				for i, l := range x.Lhs {
 					// s.F[k] = v
 					if ix, ok := ast.Unparen(l).(*ast.IndexExpr); ok {
@@ -1160,4 +1188,93 @@ func isKeyedInsertHelper(p *packages.Package, fn *types.Func) bool {
 		return true
 	})
 	return ok && inserts
+}
+
+// containerAccessorField: fn is a method whose only job is to hand back one field of its receiver, allocating it first
+// when it is nil (`if s.F == nil { s.F = make(…) }; return s.F`). The name of that field, or "".
+func containerAccessorField(p *packages.Package, fn *types.Func) string {
+	if fn == nil || fn.Pkg() != p.Types {
+		return ""
+	}
+	fd := FuncDecls(p)[declKeyOf(fn)]
+	if fd == nil || fd.Body == nil || fd.Recv == nil {
+		return ""
+	}
+	info := p.TypesInfo
+	recv := recvObj(p, fd)
+	field := ""
+	ownField := func(e ast.Expr) string {
+		sel, ok := ast.Unparen(e).(*ast.SelectorExpr)
+		if !ok {
+			return ""
+		}
+		if id, ok := ast.Unparen(sel.X).(*ast.Ident); ok && info.Uses[id] == recv {
+			return sel.Sel.Name
+		}
+		return ""
+	}
+	for _, st := range fd.Body.List {
+		switch x := st.(type) {
+		case *ast.ReturnStmt:
+			if len(x.Results) != 1 || ownField(x.Results[0]) == "" || (field != "" && ownField(x.Results[0]) != field) {
+				return ""
+			}
+			field = ownField(x.Results[0])
+		case *ast.IfStmt:
+			be, ok := ast.Unparen(x.Cond).(*ast.BinaryExpr)
+			if !ok || be.Op != token.EQL || !isNilIdent(info, be.Y) || ownField(be.X) == "" || x.Else != nil || x.Init != nil || len(x.Body.List) != 1 {
+				return ""
+			}
+			as, ok := x.Body.List[0].(*ast.AssignStmt)
+			if !ok || len(as.Lhs) != 1 || len(as.Rhs) != 1 || ownField(as.Lhs[0]) != ownField(be.X) {
+				return ""
+			}
+			switch v := ast.Unparen(as.Rhs[0]).(type) {
+			case *ast.CallExpr:
+				if id, ok := v.Fun.(*ast.Ident); !ok || id.Name != "make" {
+					return ""
+				}
+			case *ast.CompositeLit:
+				if len(v.Elts) != 0 {
+					return ""
+				}
+			default:
+				return ""
+			}
+			if field != "" && field != ownField(be.X) {
+				return ""
+			}
+			field = ownField(be.X)
+		default:
+			return ""
+		}
+	}
+	return field
+}
+
+// singleAssignment: obj is assigned exactly once inside body (its definition).
+func singleAssignment(info *types.Info, body ast.Node, obj types.Object) bool {
+	n := 0
+	ast.Inspect(body, func(m ast.Node) bool {
+		switch x := m.(type) {
+		case *ast.AssignStmt:
+			for _, l := range x.Lhs {
+				if id, ok := l.(*ast.Ident); ok && info.ObjectOf(id) == obj {
+					n++
+				}
+			}
+		case *ast.IncDecStmt:
+			if id, ok := x.X.(*ast.Ident); ok && info.ObjectOf(id) == obj {
+				n++
+			}
+		case *ast.UnaryExpr:
+			if x.Op == token.AND {
+				if id, ok := ast.Unparen(x.X).(*ast.Ident); ok && info.ObjectOf(id) == obj {
+					n += 2
+				}
+			}
+		}
+		return true
+	})
+	return n == 1
 }
